@@ -2,12 +2,13 @@
 
 `Emitter` writes tokens and records (line, column) of each (ANTLR convention: lines from 1, columns
 from 0 counted in code points).  `render_unit` takes an abstract unit (dict) and returns
-(text, facts): facts carry, for every member, the positions the listeners read.  The abstract unit
-is the *input* of the properties; the facts are what a correct front-end must report.
+(text, facts): facts carry, for every member, the positions the listeners read, and
+facts["events"]: the callbacks the ANTLR tree walker fires for this file, in order, with the texts and
+token positions the Go listeners read (consumed by lean/CocaVerif/Model/JavaFull.lean).
 
 Abstract unit:
   {pkg, imports:[str], annos:[anno], kind:'class'|'interface', name, tparams:[str], ext:str|None,
-   impls:[str], fields:[{mods:[str], type, name, init:expr|None}], members:[member]}
+   impls:[str], fields:[{annos, mods:[str], type, name, init:expr|None}], members:[member]}
   anno   = {name, args: None | 'str' (single positional, already Java text) | [(key, valuetext)]}
   member = {kind:'method'|'ctor', annos:[anno], mods:[str], tparams:[str], ret:str, name:str,
             params:[{type,name,annos:[anno]}], body:[stmt] | None (abstract/interface), pre_nl:int}
@@ -16,8 +17,10 @@ Abstract unit:
            | ('try', [stmt], exc_type, [stmt]) | ('return', expr|None) | ('filler', n) | ('raw', text)
   expr   = ('call', recv_expr|None, name, [expr]) | ('new', type, [expr]) | ('name', x) | ('lit', text)
            | ('bin', op, a, b) | ('assign', name, expr) | ('lambda', [names], expr) | ('this',)
-           | ('field', expr, name) | ('mref', expr, name)
+           | ('field', expr, name) | ('mref', ('name', x), name) | ('paren', expr)
 """
+
+PRIMS = ("int", "long", "char", "byte", "short", "boolean", "float", "double", "void")
 
 
 class Emitter:
@@ -29,7 +32,6 @@ class Emitter:
         self.indent = 0
         self.need_space = False
 
-    # position of the NEXT token
     def pos(self):
         return len(self.lines), len(self.lines[-1])
 
@@ -61,7 +63,6 @@ class Emitter:
             self.lines[-1] += " "
 
     def tok(self, text, glue=False):
-        """emit a token; glue=True: no space before it (still may get one in wild mode? no: keep)"""
         if not glue or self.lines[-1] == "":
             self._gap()
         line, col = self.pos()
@@ -86,14 +87,61 @@ def anno_text(a):
     return s + "(" + ", ".join("%s = %s" % (k, v) for k, v in args) + ")"
 
 
+def anno_model(a):
+    """what common_listener.BuildAnnotation stores"""
+    args = a.get("args")
+    if args is None:
+        kvs = []
+    elif isinstance(args, str):
+        kvs = [{"Key": args.replace(" ", ""), "Value": args.replace(" ", "")}]
+    else:
+        kvs = [{"Key": k, "Value": v.replace(" ", "")} for k, v in args]
+    return {"Name": a["name"], "KeyValues": kvs}
+
+
+def created_idents(t):
+    """identifiers of a createdName: a.b.Foo<X> -> [a, b, Foo]; primitive types have none"""
+    base = t.split("<")[0].replace("[]", "")
+    if base in PRIMS:
+        return []
+    return base.split(".")
+
+
+def type_ident(t):
+    """first identifier of the classOrInterfaceType of a field type, None for a primitive type"""
+    base = t.split("<")[0].split("[")[0].strip()
+    if base in PRIMS:
+        return None
+    return base.split(".")[0]
+
+
+def gtext(t):
+    """ANTLR GetText() of a type: no blanks"""
+    return t.replace(" ", "")
+
+
 class JavaRenderer:
     def __init__(self, rng=None, wild=0.0, comments=None):
         self.e = Emitter(rng, wild, comments)
         self.rng = rng
-        self.calls = None  # current function's call facts
+        self.calls = None   # current function's call facts
+        self.events = []    # listener events in walker order
 
-    # ---- expressions: emitted as one glued token sequence; returns nothing, records calls
-    def expr(self, x, first=True):
+    # ---- expressions -------------------------------------------------------------------------
+    def args(self, args):
+        e = self.e
+        e.tok("(", glue=True)
+        first_arg_text = expr_text(args[0]) if args else None
+        for i, a in enumerate(args):
+            if i:
+                e.tok(",", glue=True)
+                self.expr(a, True, var_text=first_arg_text)
+            else:
+                self.expr(a, False, var_text=first_arg_text)
+        return e.tok(")", glue=True)
+
+    def expr(self, x, first=True, var_text=None, assign_var=None):
+        """var_text: what EnterCreator reads as ctx.GetParent().GetParent().GetChild(0).GetText() if x is a `new`"""
         e = self.e
         k = x[0]
         if k == "name" or k == "lit":
@@ -103,45 +151,44 @@ class JavaRenderer:
         elif k == "call":
             recv, name, args = x[1], x[2], x[3]
             if recv is not None:
-                self.expr(recv, first)
+                self.expr(recv, first, var_text=expr_text(recv))
                 e.tok(".", glue=True)
                 line, col = e.tok(name, glue=True)
             else:
                 line, col = e.tok(name, glue=not first)
+            fact = {"kind": "call", "name": name, "line": line, "col": col,
+                    "recv": recv_text(recv), "nargs": len(args), "args": [expr_text(a) for a in args],
+                    "meta": (x[4] if len(x) > 4 else None)}
             if self.calls is not None:
-                self.calls.append({"kind": "call", "name": name, "line": line, "col": col,
-                                   "recv": recv_text(recv), "nargs": len(args), "args": [expr_text(a) for a in args]})
-            e.tok("(", glue=True)
-            for i, a in enumerate(args):
-                if i:
-                    e.tok(",", glue=True)
-                    self.expr(a, True)
-                else:
-                    self.expr(a, False)
-            e.tok(")", glue=True)
+                self.calls.append(fact)
+            ev = {"e": "call", "targetText": expr_text(recv) if recv is not None else expr_text(x),
+                  "targetCallIdent": (recv[2] if (recv is not None and recv[0] == "call" and recv[1] is None) else None),
+                  "callee": name, "ctxText": name + "(" + ",".join(expr_text(a) for a in args) + ")",
+                  "args": [expr_text(a) for a in args], "startLine": line, "startCol": col}
+            self.events.append(ev)
+            el, _ = self.args(args)
+            ev["stopLine"] = el
+            fact["stopLine"] = el
         elif k == "new":
             line, col = e.tok("new", glue=not first)
             tl, tc = e.tok(x[1])
             if self.calls is not None:
                 self.calls.append({"kind": "new", "type": x[1], "line": tl, "col": tc, "newline": line, "newcol": col, "nargs": len(x[2])})
-            e.tok("(", glue=True)
-            for i, a in enumerate(x[2]):
-                if i:
-                    e.tok(",", glue=True)
-                    self.expr(a, True)
-                else:
-                    self.expr(a, False)
-            e.tok(")", glue=True)
+            ev = {"e": "creator", "varText": var_text if var_text is not None else expr_text(x), "idents": created_idents(x[1]),
+                  "assignVar": assign_var, "startLine": tl, "startCol": tc}
+            self.events.append(ev)
+            sl, sc = self.args(x[2])
+            ev["stopLine"], ev["stopCol"] = sl, sc
         elif k == "bin":
-            self.expr(x[2], first)
+            self.expr(x[2], first, var_text=expr_text(x[2]))
             e.tok(x[1])
-            self.expr(x[3], True)
+            self.expr(x[3], True, var_text=expr_text(x[2]))
         elif k == "assign":
             e.tok(x[1], glue=not first)
             e.tok("=")
-            self.expr(x[2], True)
+            self.expr(x[2], True, var_text=x[1], assign_var=x[1])      # `x = new T()`: the creator's grandparent is the assignment
         elif k == "field":
-            self.expr(x[1], first)
+            self.expr(x[1], first, var_text=expr_text(x[1]))
             e.tok(".", glue=True)
             e.tok(x[2], glue=True)
         elif k == "lambda":
@@ -152,14 +199,20 @@ class JavaRenderer:
                 e.tok(n, glue=(i == 0))
             e.tok(")", glue=True)
             e.tok("->")
-            self.expr(x[2], True)
+            self.expr(x[2], True, var_text="(" + ",".join(x[1]) + ")")
         elif k == "mref":
-            self.expr(x[1], first)
+            idx = len(self.events)
+            self.events.append(None)      # EnterExpression of the `::` expression fires before its children
+            sl, sc = e.tok(x[1][1], glue=not first)
             e.tok("::", glue=True)
-            e.tok(x[2], glue=True)
+            ml, mc = e.tok(x[2], glue=True)
+            self.events[idx] = {"e": "mref", "exprText": x[1][1], "methodName": x[2], "startLine": sl, "startCol": sc,
+                                "stopLine": ml, "stopCol": mc}
+            if self.calls is not None:
+                self.calls.append({"kind": "mref", "name": x[2], "line": ml, "col": mc})
         elif k == "paren":
             e.tok("(", glue=not first)
-            self.expr(x[1], False)
+            self.expr(x[1], False, var_text=expr_text(x[1]))
             e.tok(")", glue=True)
         else:
             raise ValueError("expr " + repr(x))
@@ -168,7 +221,7 @@ class JavaRenderer:
         """parenthesised condition spanning `height` lines (height>=1)"""
         e = self.e
         sl, _ = e.tok("(")
-        self.expr(x, False)
+        self.expr(x, False, var_text=expr_text(x))
         for i in range(height - 1):
             e.nl()
             e.tok("&&")
@@ -179,26 +232,31 @@ class JavaRenderer:
     def block(self, stmts, fn):
         e = self.e
         e.tok("{")
+        self.events.append({"e": "enterBlock"})
         e.indent += 1
         for s in stmts:
             e.nl()
             self.stmt(s, fn, top=False)
         e.indent -= 1
         e.nl()
-        return e.tok("}")
+        r = e.tok("}")
+        self.events.append({"e": "exitBlock"})
+        return r
 
     def stmt(self, s, fn, top):
         e = self.e
         k = s[0]
         if k == "local":
+            self.events.append({"e": "localVar", "typeText": gtext(s[1]), "name": s[2]})
             e.tok(s[1])
             e.tok(s[2])
             if s[3] is not None:
                 e.tok("=")
-                self.expr(s[3], True)
+                # variableInitializer -> expression: the initializer's own text
+                self.expr(s[3], True, var_text=expr_text(s[3]))
             e.tok(";", glue=True)
         elif k == "expr":
-            self.expr(s[1], True)
+            self.expr(s[1], True, var_text=expr_text(s[1]))
             e.tok(";", glue=True)
         elif k == "if":
             e.tok("if")
@@ -215,15 +273,19 @@ class JavaRenderer:
             self.cond(s[1], 1, [])
             self.block(s[2], fn)
         elif k == "for":
+            self.events.append({"e": "enterStmtScope"})
             e.tok("for")
             e.tok("(")
+            self.events.append({"e": "forVar", "type": gtext(s[1]), "name": s[2]})
             e.tok(s[1], glue=True)
             e.tok(s[2])
             e.tok(":")
-            self.expr(s[3], True)
+            self.expr(s[3], True, var_text=gtext(s[1]))
             e.tok(")", glue=True)
             self.block(s[4], fn)
+            self.events.append({"e": "exitStmtScope"})
         elif k == "switch":
+            self.events.append({"e": "enterStmtScope"})
             e.tok("switch")
             self.cond(s[1], 1, [])
             if top:
@@ -250,6 +312,7 @@ class JavaRenderer:
             e.indent -= 1
             e.nl()
             e.tok("}")
+            self.events.append({"e": "exitStmtScope"})
         elif k == "try":
             e.tok("try")
             self.block(s[1], fn)
@@ -262,7 +325,7 @@ class JavaRenderer:
         elif k == "return":
             e.tok("return")
             if s[1] is not None:
-                self.expr(s[1], True)
+                self.expr(s[1], True, var_text="return")
             e.tok(";", glue=True)
         elif k == "filler":
             for i in range(s[1]):
@@ -279,13 +342,17 @@ class JavaRenderer:
     def annos(self, annos, same_line=False):
         for a in annos:
             self.e.tok(anno_text(a))
+            self.events.append({"e": "anno", "anno": anno_model(a)})
             if not same_line:
                 self.e.nl()
 
     def member(self, m, unit, facts):
         e = self.e
+        is_iface = unit["kind"] == "interface"
         for _ in range(m.get("pre_nl", 1)):
             e.nl()
+        if is_iface:
+            self.events.append({"e": "interfaceBodyDecl"})
         self.annos(m.get("annos", []), m.get("annos_same_line", False))
         for md in m.get("mods", []):
             e.tok(md)
@@ -294,23 +361,37 @@ class JavaRenderer:
         if m.get("tparams"):
             e.tok("<" + ", ".join(m["tparams"]) + ">")
         fn = {"kind": m["kind"], "name": m["name"], "ret": m.get("ret", ""), "ifSize": 0, "switchSize": 0, "ifs": [], "calls": [],
-              "params": [(p["type"].replace(" ", ""), p["name"]) for p in m["params"]],
+              "params": [(gtext(p["type"]), p["name"]) for p in m["params"]],
               "annos": [a["name"] for a in m.get("annos", [])], "mods": list(m.get("mods", []))}
         if m["kind"] == "method":
             sl, sc = e.tok(m["ret"])
-            fn["startLine"] = sl
-            fn["retCol"] = sc
+            fn["startLine"], fn["retCol"] = sl, sc
             nl_, nc = e.tok(m["name"])
+            startcol = sc
         else:
             nl_, nc = e.tok(m["name"])
             fn["startLine"] = nl_
+            startcol = nc
         fn["nameLine"], fn["nameCol"] = nl_, nc
+        params = [[gtext(p["type"]), p["name"]] for p in m["params"]]
+        amodel = [anno_model(a) for a in m.get("annos", [])]
+        if m["kind"] == "ctor":
+            head = {"e": "enterCtor", "name": m["name"], "params": params, "emptyParams": not params, "startLine": nl_, "startCol": nc}
+        elif is_iface:
+            head = {"e": "interfaceMethod", "name": m["name"], "ret": gtext(m["ret"]), "annos": amodel, "params": params, "emptyParams": not params,
+                    "startLine": fn["startLine"], "startCol": startcol}
+        else:
+            head = {"e": "enterMethod", "name": m["name"], "ret": gtext(m["ret"]), "annos": amodel, "params": params, "emptyParams": not params,
+                    "startLine": fn["startLine"], "nameCol": nc}
+        self.events.append(head)
         e.tok("(", glue=True)
         for i, p in enumerate(m["params"]):
             if i:
                 e.tok(",", glue=True)
+            self.events.append({"e": "formalParam", "name": p["name"], "type": gtext(p["type"])})
             for a in p.get("annos", []):
                 e.tok(anno_text(a), glue=(i == 0))
+                self.events.append({"e": "anno", "anno": anno_model(a)})
             e.tok(p["type"], glue=(i == 0 and not p.get("annos")))
             e.tok(p["name"])
         e.tok(")", glue=True)
@@ -322,6 +403,7 @@ class JavaRenderer:
         else:
             self.calls = fn["calls"]
             e.tok("{")
+            self.events.append({"e": "enterBlock"})
             e.indent += 1
             for s in m["body"]:
                 e.nl()
@@ -329,9 +411,14 @@ class JavaRenderer:
             e.indent -= 1
             e.nl()
             el, ec = e.tok("}")
+            self.events.append({"e": "exitBlock"})
             self.calls = None
-        fn["stopLine"] = el
-        fn["stopCol"] = ec
+        fn["stopLine"], fn["stopCol"] = el, ec
+        head["stopLine"], head["stopCol"] = el, ec
+        if m["kind"] == "ctor":
+            self.events.append({"e": "exitCtor"})
+        elif not is_iface:
+            self.events.append({"e": "exitMethod"})
         facts["functions"].append(fn)
 
     def unit(self, u):
@@ -347,11 +434,16 @@ class JavaRenderer:
             e.tok(u["pkg"])
             e.tok(";", glue=True)
             e.nl(2)
+            self.events.append({"e": "pkg", "name": u["pkg"]})
         for imp in u.get("imports", []):
             e.tok("import")
             e.tok(imp)
             e.tok(";", glue=True)
             e.nl()
+            q = imp[len("static "):] if imp.startswith("static ") else imp
+            if q.endswith(".*"):
+                q = q[:-2]
+            self.events.append({"e": "imp", "name": q})
         e.nl()
         self.annos(u.get("annos", []))
         for md in u.get("mods", ["public"]):
@@ -364,29 +456,40 @@ class JavaRenderer:
         if u.get("impls"):
             e.tok("implements" if u["kind"] == "class" else "extends")
             e.tok(", ".join(u["impls"]))
+        if u["kind"] == "class":
+            self.events.append({"e": "enterClass", "name": u["name"], "ext": gtext(u["ext"]) if u.get("ext") else None,
+                                "impls": [gtext(i) for i in u.get("impls", [])]})
+        else:
+            self.events.append({"e": "enterInterface", "name": u["name"], "exts": [gtext(i) for i in u.get("impls", [])]})
         e.tok("{")
         e.indent += 1
         for f in u.get("fields", []):
             e.nl()
             for a in f.get("annos", []):
                 e.tok(anno_text(a))
+                self.events.append({"e": "anno", "anno": anno_model(a)})
             for md in f.get("mods", []):
                 e.tok(md)
-            e.tok(f["type"])
+            tl, tc = e.tok(f["type"])
+            ev = {"e": "field", "typeIdent": type_ident(f["type"]), "names": [f["name"]], "startLine": tl, "startCol": tc}
+            self.events.append(ev)
             e.tok(f["name"])
             if f.get("init") is not None:
                 e.tok("=")
                 self.calls = []
-                self.expr(f["init"], True)
+                self.expr(f["init"], True, var_text=expr_text(f["init"]))
                 facts.setdefault("fieldCalls", []).extend(self.calls)
                 self.calls = None
-            e.tok(";", glue=True)
-            facts["fields"].append({"type": f["type"].replace(" ", ""), "name": f["name"], "mods": list(f.get("mods", []))})
+            sl, sc = e.tok(";", glue=True)
+            ev["stopLine"], ev["stopCol"] = sl, sc
+            facts["fields"].append({"type": gtext(f["type"]), "name": f["name"], "mods": list(f.get("mods", []))})
         for m in u.get("members", []):
             self.member(m, u, facts)
         e.indent -= 1
         e.nl()
         e.tok("}")
+        self.events.append({"e": "exitBody"})
+        facts["events"] = self.events
         return e.text(), facts
 
 
@@ -404,7 +507,7 @@ def expr_text(x):
     if k == "call":
         return (expr_text(x[1]) + "." if x[1] is not None else "") + x[2] + "(" + ",".join(expr_text(a) for a in x[3]) + ")"
     if k == "new":
-        return "new" + x[1] + "(" + ",".join(expr_text(a) for a in x[2]) + ")"
+        return "new" + gtext(x[1]) + "(" + ",".join(expr_text(a) for a in x[2]) + ")"
     if k == "bin":
         return expr_text(x[2]) + x[1] + expr_text(x[3])
     if k == "assign":
